@@ -111,3 +111,17 @@ Theorem C08_agrees_with_one_by_one : forall L ads s r0 a0,
   best_match (map to_p ads) s = Some (MSingle r0 (comparer_result L (zlen s) h0)).
 Proof. exact index_agrees_with_one_by_one. Qed.
 Print Assumptions C08_agrees_with_one_by_one.
+
+(** ... and anchored 3' adapters (the comparer works on the reversed strings): the last L characters *)
+Theorem C08_agrees_with_one_by_one_suffix : forall L ads s r0 a0,
+  1 <= L -> Forall (suffix_iad L) ads -> L <= zlen s ->
+  let affix := make_affix false (map (tr upper_table) s) L in
+  Forall (fun c => is_acgt c = true) affix ->
+  nth_error ads r0 = Some a0 ->
+  let h0 := hamming (a_seq (ia_ad a0)) affix in
+  h0 <= ia_k a0 ->
+  (forall j b, j <> r0 -> nth_error ads j = Some b -> hamming (a_seq (ia_ad b)) affix <= ia_k b -> h0 < hamming (a_seq (ia_ad b)) affix) ->
+  index_match false ads s = Some (r0, zlen s - L, zlen s, h0, L - h0) /\
+  best_match (map to_p ads) s = Some (MSingle r0 (suffix_result L (zlen s) h0)).
+Proof. exact index_agrees_with_one_by_one_suffix. Qed.
+Print Assumptions C08_agrees_with_one_by_one_suffix.
